@@ -89,3 +89,86 @@ Example C02_crc_check_values :
   crc32_update poly_ieee 0 [49;50;51;52;53;54;55;56;57] = 3421780262 /\      (* 0xCBF43926 *)
   crc32_update poly_castagnoli 0 [49;50;51;52;53;54;55;56;57] = 3808858755.  (* 0xE3069283 *)
 Proof. vm_compute. split; reflexivity. Qed.
+
+(* ------------------------------------------------------------------------------------------
+   Pooled checksum objects reused across messages: the running CRC is private to one message
+   between ChecksumType.New() and Release().  (Model/CkOwn.v, Proofs/CkOwnP.v)               *)
+From Verif Require Import Gen.GenCkSites Model.CkOwn Proofs.CkOwnP.
+
+(* The table of EVERY operation on a pooled checksum in the non-test source of the package
+   -- New, Release, Add, Sum, Reset, pool Get/Put, noReleaseChecksum wraps, stores into struct
+   fields, hand-overs as arguments; each with its enclosing function, receiver expression and
+   the conditions guarding it -- regenerated by go2v on this run (Gen/GenCkSites.ck_sites), is
+   the model's table: of the tree as pinned (finishRelayItem releases the relay's mutated
+   checksum), or of the tree without that Release.  A Release added to failRelayItem or
+   timeoutRelayItem, a Release moved out of its `if`, a dropped noReleaseChecksum wrap, a new
+   user of item.mutatedChecksum ... make both alternatives false. *)
+Theorem C02_ck_sites_generated :
+  map snd (ck_site_table true) = ck_sites \/ map snd (ck_site_table false) = ck_sites.
+Proof. exact ck_table_generated. Qed.
+
+(* every New/Add/Sum/Release event of the life-cycle model happens at a row of that table whose
+   kind is the event's operation *)
+Theorem C02_ck_model_sites_in_table : forall fr strict ls s es s',
+  ck_run_lc fr strict s ls = Some (es, s') -> forallb (ck_ev_site_ok fr) es = true.
+Proof. exact ck_run_sites. Qed.
+
+(* OWNERSHIP DISCIPLINE.  For every interleaving [ls] of any number of request writers,
+   response writers, readers and mutated relay items -- whichever pooled object each New()
+   draws, errors / failRelayItem / timeouts at any point, any number of frames of a relayed
+   call in flight -- the trace [es] of pooled-checksum operations satisfies [ck_ok]: an object
+   is acquired only while nobody holds it; Add, Sum and Release happen only through the life
+   cycle that holds it, at a site of that life cycle; after its Release nobody holds it (no
+   use after release, no second release, no running CRC shared by two messages).
+   fr = false: the tree without the Release in finishRelayItem -- unconditional.
+   fr = true (the pinned tree): under [strict] -- finishRelayItem does not run while a frame
+   of the call is between the relay's item lookup and the end of its checksum update. *)
+Theorem C02_ck_discipline : forall fr strict ls es s,
+  (fr = false \/ strict = true) ->
+  ck_run_lc fr strict ck_init ls = Some (es, s) -> ck_ok fr es = true.
+Proof. exact ck_discipline. Qed.
+
+(* ... and the pinned tree without that restriction REFUTES the discipline (a genuine defect,
+   known finding c02:relay-checksum-released-under-inflight-frame, reproduced on the
+   implementation by engine ckown, scenario "overlap"): the origin connection's reader is still
+   feeding the item's checksum when the destination connection's reader finishes the call and
+   releases it -- event 2 of the trace is an Add on an object nobody holds. *)
+Theorem C02_ck_discipline_refuted_by_overlap :
+  exists ls es s, ck_run_lc true false ck_init ls = Some (es, s) /\ ck_run true [] 0 es = inr (2, 3).
+Proof. exact ck_discipline_refuted_by_overlap. Qed.
+
+(* released exactly once: in every run a completed life cycle (writer: last fragment finished;
+   reader: doneReading; relay item: finished, on a tree that releases there) has exactly one
+   Release event and every other life cycle none *)
+Theorem C02_ck_released_once : forall fr strict ls es s k,
+  ck_run_lc fr strict ck_init ls = Some (es, s) ->
+  ck_rel_count k es = if o_phase (cs_own s k) =? 4 then 1 else 0.
+Proof. exact ck_released_once. Qed.
+
+Print Assumptions C02_ck_sites_generated.
+Print Assumptions C02_ck_model_sites_in_table.
+Print Assumptions C02_ck_discipline.
+Print Assumptions C02_ck_discipline_refuted_by_overlap.
+Print Assumptions C02_ck_released_once.
+
+(* non-vacuity: a run with all four kinds of life cycle, pool reuse, a send failure in the
+   middle of a re-fragmented request followed by further Add/Sum of the fragmenting writer,
+   a continuation frame and the finish of the item is accepted by the strict model of both
+   variants, satisfies the discipline, and exercises every New/Add/Sum/Release row of the
+   table outside checksum.go *)
+Example C02_ck_sample : forall fr,
+  match ck_run_lc fr true ck_init (ck_sample_run fr) with
+  | Some (es, _) =>
+      ck_ok fr es = true /\
+      forallb (fun row => (row <=? 7) || existsb (fun e => ce_site e =? row) es) (ck_op_rows fr) = true
+  | None => False
+  end.
+Proof. exact ck_sample_ok. Qed.
+
+(* the reviewer's change in the model: a Release at the failure inside fragmentingSend, then the
+   fragmenting writer goes on -- the discipline checker rejects the trace at the Release (a site
+   foreign to the item's life cycle), and without that check at the next Add *)
+Example C02_ck_release_on_fail_rejected :
+  ck_run true [] 0 [mkCkev K_it_new 0 1 1; mkCkev K_wr_add 1 1 1; mkCkev K_wr_rel 3 1 1; mkCkev K_wr_add 1 1 1] = inr (2, 7)
+  /\ ck_run true [] 0 [mkCkev K_it_new 0 1 1; mkCkev K_it_rel 3 1 1; mkCkev K_wr_add 1 1 1] = inr (2, 3).
+Proof. vm_compute. split; reflexivity. Qed.
